@@ -151,6 +151,43 @@ theorem C12_weather_range (mr mc sr sc : Nat) (means zs us out : List Rat)
       · intro h; exact hz (Or.inr h)
     exact ⟨Rat.not_lt.mp this.1, Rat.not_lt.mp this.2⟩
 
+/-- C12 (weather part), degenerate deviation: a cell whose standard deviation is 0 gets its mean
+    (which has passed the range test) - the range test is never by-passed for such cells. -/
+theorem C12_weather_degenerate (mr mc sr sc : Nat) (means sds ns us out : List Rat)
+    (h : updateWeatherFromDistribution mr mc sr sc means (weatherZs means sds ns) us = .ok out)
+    (k : Nat) (hk : k < means.length) (hs : sds[k]! = 0) :
+    out[k]! = means[k]! ∧ 0 ≤ means[k]! ∧ means[k]! ≤ 1 := by
+  unfold updateWeatherFromDistribution at h
+  split at h; · cases h
+  split at h; · cases h
+  split at h; · cases h
+  rename_i hany
+  simp only [Except.ok.injEq] at h
+  subst h
+  have hmem : means[k]! ∈ means := by
+    rw [getElem!_pos means k hk]; exact List.getElem_mem hk
+  have hm1 : ¬ (means[k]! < 0) := fun hlt =>
+    hany (List.any_eq_true.mpr ⟨_, hmem, by rw [Bool.or_eq_true]; exact Or.inl (decide_eq_true hlt)⟩)
+  have hm2 : ¬ (means[k]! > 1) := fun hgt =>
+    hany (List.any_eq_true.mpr ⟨_, hmem, by rw [Bool.or_eq_true]; exact Or.inr (decide_eq_true hgt)⟩)
+  have hz : (weatherZs means sds ns)[k]! = means[k]! := by
+    unfold weatherZs
+    rw [getElem!_pos _ k (by simpa using hk), List.getElem_map, List.getElem_range]
+    unfold normalDraw
+    rw [hs, Rat.mul_zero, Rat.zero_add]
+  refine ⟨?_, Rat.not_lt.mp hm1, Rat.not_lt.mp hm2⟩
+  rw [getElem!_pos _ k (by simpa using hk), List.getElem_map, List.getElem_range]
+  unfold normalWithFallback
+  rw [hz, if_neg (fun h => h.elim hm1 hm2)]
+
+example : updateWeatherFromDistribution 1 2 1 2 [1, 0] (weatherZs [1, 0] [0, 3] [7, 1]) [0, 0]
+    = .ok [1, 0] := by
+  simp +decide [updateWeatherFromDistribution, weatherZs, normalDraw, normalWithFallback, List.range, List.range.loop]
+  have e1 : (0 : Rat) + 1 = 1 := by grind
+  have e2 : (3 : Rat) + 0 = 3 := by grind
+  rw [e1, e2]
+  decide
+
 /-- Index safety of the landscape algorithms: a cell that passes the outside test has an index
     inside the raster buffers, for every raster shape (single cell, single row, single column,
     rows ≠ cols) and however far outside the kernel throws a disperser. -/
